@@ -122,6 +122,7 @@ def run(ctx):
         ev = traces[tid][l]
         ctx.report(clause, "event %d %s in %s" % (l, {k: v for k, v in ev.items() if k != "live"}, meta[tid]["history"]),
                    {"meta": meta[tid], "trace": traces[tid], "event": l})
+    ctx.require_ops("Trace_Channels", ["read", "mutate", "write"])
     ctx.sample({"history": meta[0]["history"], "trace": traces[0]})
     ctx.sample({"history": meta[-1]["history"]})
     ctx.assumptions += [
